@@ -356,6 +356,7 @@ def execute_conc(case: dict) -> dict:
         conc = {"seen": False}
         clears: list = []  # seq numbers of cache_clear() calls
         call_of: dict = {}  # task -> seq of the call it is making (who triggers an execution)
+        f19_keys: set = set()  # keys whose executions have overlapped through F19
 
         def note_preconditions(seq: int) -> None:
             """(a) eviction pressure (more distinct keys called than maxsize) together with
@@ -421,8 +422,11 @@ def execute_conc(case: dict) -> dict:
                            for c in clears) for r in older):  # fmt: skip
                     window("overlap_across_cache_clear")
                 else:
-                    viol.append(("overlapping-executions-of-one-key", {"key": k},
-                                 f3_mech() or f19_mech(k, [rec, *older])))  # fmt: skip
+                    m19 = f19_mech(k, [rec, *older])
+                    if m19:
+                        f19_keys.add(k)  # (what callers of k are served from here on follows from it)
+
+                    viol.append(("overlapping-executions-of-one-key", {"key": k}, f3_mech() or m19))
 
             try:
                 work, fail = plans.get(k, [(1, False)]).pop(0) if plans.get(k) else (1, False)
@@ -498,7 +502,8 @@ def execute_conc(case: dict) -> dict:
                 raise
             except KeyError as e:
                 h.ev(a.name, "raised-KeyError")
-                viol.append(("internal-error", {"exc": repr(e), "key": k}, f3_mech()))
+                viol.append(("internal-error", {"exc": repr(e), "key": k},
+                             f3_mech() or (F19_EXPIRED if k in f19_keys else None)))  # fmt: skip
                 return
             except BaseException as e:  # noqa: BLE001
                 h.ev(a.name, "raised", type(e).__name__)
@@ -525,9 +530,11 @@ def execute_conc(case: dict) -> dict:
                               "clear": last_clear, "call": call_seq}, None))  # fmt: skip
 
             if tok[1] < latest_ok_before:
+                # (after two executions of k have overlapped through F19, a caller queued on
+                # the older one's lock is served its result although the newer one finished first)
                 viol.append(("stale-token", {"key": k, "tok": tok,
                                              "latest_ok_before_call": latest_ok_before},
-                             f3_mech()))  # fmt: skip
+                             f3_mech() or (F19_EXPIRED if k in f19_keys else None)))  # fmt: skip
 
             if case["ttl"] is not None:
                 rec = lst[tok[1]]
